@@ -55,6 +55,11 @@ def conforms_py(S, ty, v) -> bool:
             if not conforms_py(S, f["ty"], getattr(v, f["name"])):
                 return False
         return True
+    if k == "union":
+        # an instance of exactly one of the member classes (conforming as that class), or None when None is a member
+        if v is None:
+            return bool(ty[2])
+        return any(type(v) is S.R.classes[m] and conforms_py(S, ("cls", m), v) for m in ty[1])
     if k == "td":
         if type(v) is not dict:
             return False
@@ -72,8 +77,9 @@ def run(chk: framework.Check):
     drv = lean.Driver()
     n_worlds = 120 if chk.tier == "quick" else 1500
     corr_fail = []
-    for G, S, w in streams.worlds(chk, drv, n_worlds):
+    for G, S, w in streams.worlds(chk, drv, n_worlds, unions=True):
         for ty, x, xv in streams.typed_values(chk, G, S, w, n_types=4, n_values=1):
+            has_union = bool(gen.reach_unions(w, ty))
             for cfg in CFGS:
                 if not gen.supported(cfg, w, ty):
                     chk.note("unsupported-by-converter-class")
@@ -90,6 +96,8 @@ def run(chk: framework.Check):
                               sample={"cfg": cfg_name(cfg), "type": terms.ty_sx(ty), "payload": terms.canon_sx(p), "outcome": ri[0]})
                     chk.note("payload:" + kind, "outcome:" + ri[0], "cfg:" + cfg_name(cfg),
                              "ty:" + (ty if isinstance(ty, str) else ty[0]))
+                    if has_union:
+                        chk.note("union-reachable:" + kind + ":" + ri[0])
                     # ---- oracle: accepted results conform
                     if ri[0] in ("ok", "unrep"):
                         if not conforms_py(S, ty, ri[2] if ri[0] == "ok" else ri[1]):
